@@ -8,6 +8,7 @@ import (
 	"errors"
 	"fmt"
 	"io"
+	"math"
 	"sync"
 
 	"github.com/fido-device-onboard/go-fdo/cbor"
@@ -107,9 +108,13 @@ func (r *ChunkReader) ReadChunk(size uint16) (*KV, error) {
 		}
 		r.r = nextReader
 
-		// Limit the max bytes read for the key to size minus 7 (min overhead,
-		// see note below)
-		keyReader := io.LimitReader(r.r, int64(size-7))
+		// Limit the max bytes read for the key. The key is always read in
+		// full, even when it does not fit into the remaining size: in that
+		// case ErrSizeTooSmall is returned below and the key is kept for the
+		// next call. (Limiting the read to the remaining size truncated the
+		// key, which dropped or failed the whole service info whenever fewer
+		// bytes than the key needs were left in a message.)
+		keyReader := io.LimitReader(r.r, math.MaxUint16)
 
 		// Read key as raw CBOR
 		if err := cbor.NewDecoder(keyReader).Decode(&r.rkey); err != nil {
